@@ -115,6 +115,12 @@ def family(tier='quick', seed=0):
                              {('a', 'x'): ('a', 'b'), ('a', 'y'): ('g',), ('b', 'x'): ('b', 'g'), ('b', 'y'): ('a',), ('g', 'x'): ('g',), ('g', 'y'): ('g',)},
                              absorbing=['g'], init=['a', 'b'])
     F.append(POSkel('p322-absorbing', m, {('x', 'a'): ('o1',), ('x', 'b'): ('o1', 'o2'), ('x', 'g'): ('o2',), ('y', 'a'): ('o1', 'o2'), ('y', 'b'): ('o2',), ('y', 'g'): ('o1', 'o2')}))
+    # the absorbing state comes FIRST in the state list (mixed beliefs whose first support state is absorbing), (2,1,2)
+    m = uniform_actions_skel('m212a', ['A', 'b'], ['go'], {('A', 'go'): ('A',), ('b', 'go'): ('A', 'b')}, absorbing=['A'], init=['b', 'A'])
+    F.append(POSkel('p212-absorbing-first', m, {('go', 'A'): ('o1', 'o2'), ('go', 'b'): ('o2',)}))
+    # sparse transitions whose successors are met in an order different from the state list (posteriors built in first-encounter order: 1, 2, 0), (3,1,2)
+    m = uniform_actions_skel('m312r', [0, 1, 2], ['go'], {(0, 'go'): (1, 2), (1, 'go'): (0,), (2, 'go'): (2, 1)}, init=[0, 1])
+    F.append(POSkel('p312-rotating', m, {('go', 0): ('o1', 'o2'), ('go', 1): ('o1', 'o2'), ('go', 2): ('o1', 'o2')}))
     # falsy labels everywhere (state 0, action '', observation 0), start state outside the initial support
     m = uniform_actions_skel('m222f', [0, 1], ['', 'go'], {(0, ''): (0,), (1, ''): (1, 0), (0, 'go'): (1,), (1, 'go'): (0, 1)}, init=[1])
     F.append(POSkel('p222-falsy-labels', m, {('', 0): (0,), ('', 1): (0, 1), ('go', 0): (1,), ('go', 1): (0, 1)}))
